@@ -5,6 +5,7 @@ import (
 	"go/ast"
 	"go/token"
 	"go/types"
+	"runtime"
 	"sort"
 	"strings"
 	"sync"
@@ -134,7 +135,14 @@ func (e *Engine) verifyContract(ct *Contract) (rep *FuncReport) {
 				rep.Status = "stale-contract"
 				rep.Reason = f.msg
 			default:
-				panic(r)
+				if re, isRT := r.(runtime.Error); isRT {
+					// the engine met a value shape its rules do not cover (e.g. a contract pattern over a struct-valued term
+					// after the code changed shape): the function is undecided, never proved
+					rep.Status = "outside-subset"
+					rep.Reason = "engine cannot interpret this body/contract combination: " + re.Error()
+				} else {
+					panic(r)
+				}
 			}
 			rep.obls = nil
 			rep.NumObl = 0
